@@ -1,4 +1,5 @@
 import PortusModel.Props.C04
+import PortusModel.Props.Tables
 #print axioms Portus.C04.from_buf_no_panic
 #print axioms Portus.C04.from_buf_progress
 #print axioms Portus.C04.create_only_when_create
@@ -6,3 +7,5 @@ import PortusModel.Props.C04
 #print axioms Portus.C04.ready_only_when_ready
 #print axioms Portus.C04.otherwise_unknown
 #print axioms Portus.C04.check_fromBuf
+#print axioms Portus.Tables.src_msgTypes_eq
+#print axioms Portus.Tables.msgtypes_shared_with_libccp
